@@ -10,8 +10,9 @@ import SupervisorModel.Generated.Rotate
     replaced behind the handler's back (the handler then keeps writing into a file nobody can
     see, exactly as a POSIX descriptor does).  `closed` exists only between `remove()` and
     `reopen()`.
-  * `File.start` and `S.hist` are ghost fields (the offset in the write history at which the
-    file was created / the number of bytes ever handed to `emit`).  No control flow reads them.
+  * `File.start`, `File.own` and `S.hist` are ghost fields (the offset in the write history at
+    which the file was created / whether the handler created it / the number of bytes ever
+    handed to `emit`).  No control flow reads them.
   * Every comparison, the range() bounds and the "%s.%d" index arithmetic of doRollover, the
     errno tests of removeAndRename/remove and the open() modes are the regenerated definitions
     of `Sv.Gen.Rotate`.
@@ -22,6 +23,7 @@ open Sv.Gen.Rotate
 
 structure File where
   start : Nat
+  own : Bool      -- ghost: created by the handler (false: put there from outside)
   data : Bytes
 deriving DecidableEq, Repr
 
@@ -105,7 +107,7 @@ def closeStream (s : S) : S := { s with stream := .closed }
 /-- `open(name n, mode)`: 'wb' truncates or creates, 'ab' creates when missing -/
 def openFile (n : Int) (trunc : Bool) (s : S) : S :=
   if trunc || !(fexists s.dir n) then
-    { s with dir := dirSet s.dir n ⟨s.hist, []⟩, stream := .attached n }
+    { s with dir := dirSet s.dir n ⟨s.hist, true, []⟩, stream := .attached n }
   else { s with stream := .attached n }
 
 /-! RotatingFileHandler.doRollover -/
@@ -178,7 +180,7 @@ def extRemove (n : Int) : S → S := okThen fun s =>
   okThen (fun s1 => { s1 with dir := dirRemove s1.dir n }) (detachAt n s)
 
 def extReplace (n : Int) (d : Bytes) : S → S := okThen fun s =>
-  okThen (fun s1 => { s1 with dir := dirSet s1.dir n ⟨0, d⟩ }) (detachAt n s)
+  okThen (fun s1 => { s1 with dir := dirSet s1.dir n ⟨0, false, d⟩ }) (detachAt n s)
 
 /-! operations -/
 inductive Op
